@@ -305,8 +305,8 @@ func c09Exec(plan *Plan, st *Stats) *Violation {
 		unseeded.World.Host.Seed = "" // a runner without a seed takes one from wherever the library finds entropy
 		c09BetweenOps = func() {
 			nw := &neighbour.World
-			if k%2 == 1 {
-				nw = &unseeded.World
+			if k%2 == 0 {
+				nw = &unseeded.World // the first one right after the runner under test was created
 			}
 			if nd, err := newDyn(nw, false); err == nil {
 				nd.apply(&neighbour.Ops[k%len(neighbour.Ops)])
